@@ -14,7 +14,7 @@ from ..e2 import *
 from .. import e2prog
 from ..report import Obl, Rule
 from .. import build
-from .voices import erase_keyoff_obligations, users_calls
+from .voices import erase_keyoff_obligations, users_calls, key_release_calls
 
 PROP = 'C04'
 RULES = [
@@ -336,13 +336,7 @@ def analyse(facts, tier):
     # the discharge above relies on realTime_panic() leaving no active note: panic() must key off immediately (a deferred
     # key-off of a short drum note keeps the note, and its chip-channel references, alive across the rebuild)
     pn = facts.fn('OPNMIDIplay::panic')
-    forced = []
-    for b, j, st in pn.cfg.stmts():
-        for x in calls_in(st['s']):
-            if short(callee_name(x)) == 'noteOff' and len(x.get('a', [])) >= 3:
-                forced.append(const_of(x['a'][2]))
-            elif short(callee_name(x)) in ('noteOff', 'realTime_NoteOff'):
-                forced.append(0)
+    forced = [1 if f_ else 0 for x, keyargs, f_ in key_release_calls(pn, pn.tree, facts.enums.get('Upd_Off'))]
     okf = bool(forced) and all(v == 1 for v in forced)
     obls.append(Obl('C04.R6', pn.name, 'panic drops every active note at once', pn.loc, 'discharged' if okf else 'finding',
                     why='noteOff(channel, key, forceNow = true) for every channel and key' if okf else
@@ -444,11 +438,9 @@ def r6_panic_all_keys(facts):
             continue
         iv = strip(c['l'])
         uses_as_key = False
-        for x in walk(t.get('body')):
-            if isinstance(x, dict) and 'callee' in x and short(callee_name(x)) in ('noteOff', 'realTime_NoteOff'):
-                a = x.get('a', [])
-                if len(a) >= 2 and strip(a[1]).get('id') == iv.get('id'):
-                    uses_as_key = True
+        for x, keyargs, forced in key_release_calls(pn, t.get('body'), facts.enums.get('Upd_Off')):
+            if any(strip(a).get('id') == iv.get('id') for a in keyargs[:1]):
+                uses_as_key = True
         if not uses_as_key:
             continue
         n += 1
